@@ -328,6 +328,12 @@ func runMerkle(s *Session, ops []merkleOp) {
 					}
 					return
 				}
+				if got.Len() < op.short && s.plan.cutHard && s.cutDone {
+					// the connection failed in mid-stream (no end of stream was ever seen):
+					// there is no root of such a stream
+					bad("reader-root-swallowed-error", "the connection was reset after %d of %d bytes of the stream and the reader returned a root (%v) without an error", got.Len(), op.short, gotRoot)
+					return
+				}
 				if got.Len() < op.short && s.anyFault() {
 					// the stream ended early on a leaf boundary: the root of a stream is the
 					// root of what it held
@@ -360,6 +366,31 @@ func runMerkle(s *Session, ops []merkleOp) {
 				}
 				k := int(rhp2.RangeProofSize(rhp4.LeavesPerSector, op.start, op.end))
 				proof, err := readHashes(tr, k)
+				defer func(v *rhp4.RangeProofVerifier, start, end uint64, sec *[rhp4.SectorSize]byte) {
+					// the verifier once more, for another reading of the same range (a
+					// retry): it judges what it read this time
+					if s.anyFault() || len(e.viols) > 0 || err != nil {
+						return
+					}
+					good := sec[start*64 : end*64]
+					altered := append([]byte(nil), good...)
+					altered[len(altered)/2] ^= 4
+					_, r := sector(op.sectorSeed)
+					root := ref.TreeRoot(r)
+					if pn := guardPanic(func() {
+						v.ReadFrom(bytes.NewReader(altered))
+						if v.Verify(proof, root) {
+							bad("range-proof-unsound", "a verifier used a second time accepted altered data for [%d,%d) (it had verified the genuine data before)", start, end)
+						}
+						v.ReadFrom(bytes.NewReader(good))
+						if !v.Verify(proof, root) {
+							bad("honest-rejected", "a verifier used a third time rejected the genuine data for [%d,%d)", start, end)
+						}
+					}); pn != "" {
+						bad("range-verifier-panic", "second use of a range proof verifier: %s", pn)
+					}
+					e.inc("merkle.verifier-reused")
+				}(v, op.start, op.end, sec)
 				if err != nil {
 					return
 				}
